@@ -5,6 +5,7 @@ package main
 // (plus random redundant ones), random layout and keyword synonyms.
 
 import (
+	"sort"
 	"strings"
 )
 
@@ -690,4 +691,70 @@ func genWalkCases(tier string, emit func(op string, fields ...string)) {
 		}
 		emit("WALK", hexs(src), mb.String())
 	}
+}
+
+func init() {
+	caseSets["compile"] = genCompileCases
+}
+
+var paramSets = []map[string]string{
+	nil, nil, nil,
+	{},
+	{"p": "$1"},
+	{"p": "$1", "lim": "{lim:Int32}"},
+	{"a": "$2", "x": "?"},
+	{"true": "FALSE", "n": "5"},
+	{"name": "'bob'", "thr": "3.5"},
+}
+
+func genCompileCases(tier string, emit func(op string, fields ...string)) {
+	n := 6000
+	if tier == "thorough" {
+		n = 100000
+	}
+	for _, s := range parseCorpus {
+		emit("COMPILE", hexs(s), "-")
+	}
+	for _, s := range compileCorpus {
+		emit("COMPILE", hexs(s), "-")
+		emit("COMPILE", hexs(s), fmtParams(map[string]string{"p": "$1", "n": "5"}))
+	}
+	for i := 0; i < n; i++ {
+		ps := pick(paramSets)
+		var names []string
+		for k := range ps {
+			names = append(names, k)
+		}
+		sort.Strings(names)
+		depth := 1 + rng.Intn(4)
+		src := genProgram(names, depth, i%5 == 0)
+		emit("COMPILE", hexs(src), fmtParams(ps))
+	}
+	// corrupted programs: either/or contract, no panic
+	for i := 0; i < n/2; i++ {
+		toks := genProgramToks(nil, 1+rng.Intn(3))
+		toks = corruptTokens(toks)
+		emit("COMPILE", hexs(layout(toks, false)), "-")
+	}
+}
+
+// compileCorpus: hand-written edge cases and minimised past failures, run first.
+var compileCorpus = []string{
+	"T | where (a)", "T | where ((a))", "T | where -(-b)", "T | where -(+b)", "T | where (-a)[1]", "T | where -a[1]",
+	"let n = -5; T | where -n > 0", "let n = -5; T | where n[1] > 0", "let n = 5; T | take n", "let n = (5); T | take n",
+	"T | where not(a) in (1,2)", "T | where not(a) == b", "T | where -not(a)", "T | where not(a)[1]", "T | where not(not(a))",
+	"T | where not(a) and b", "T | where isnull(a) == true", "T | where iff(a, b, c) + 1", "T | where strcat(a, b) == 'x'",
+	"T | render `x' , (select 1) as y, '`", "T | render t with (`a\" b` = 'v''w')", "T | render t with (title = `x'y`)",
+	"let k = 1; T | join (U) on $left.a == k", "T | join (U) on a", "T | join (U) on ($left.x) == $right.y",
+	"T | join kind=leftouter (U | where z | project a) on a, $left.b == $right.c | count",
+	"T | join (U | join (V) on a) on b | join (W) on c", "T | take 1 | sort by a", "T | sort by a | sort by b", "T | take 1 | take 2",
+	"T | top 3 by a | top 2 by b", "T | project a | sort by a", "T | as x | take 1", "T | render t | take 1", "T | count | count",
+	"T | where a == 'it\\'s'", "T | where a == \"back\\\\\"", "T | project `a\"b` = 1", "T | extend a+b, -c", "T | summarize count() by a, b",
+	"T | summarize x = count(), countif(a > 1) by k = a", "T | where a =~ 'X' and b !~ 'y'", "T | where a in (1, -2, (3))",
+	"T | where a.b == 1", "T | where $left.a == 1", "T | where not()", "T | where now(1)", "T | where iff(a)", "T | where strcat()",
+	"T; U", "let x = y; T", "let x = `q`; T", "let x = a.b; T", "let x = 1; let x = x + 1; T | take x", "T | take 1; let n = 2",
+	"T | where true and false or null", "T | where 0x1F == 31 and .5 < 1. and 1e3 > 007", "`my table` | count", "T | where f(1, 'a', b)",
+	"T | where a[1] == 2", "T | where a['k'] == 2", "T | where -1 - -1", "T | where a - (b - c)", "T | where (a + b) * c", "T | where a + b * c",
+	"T | where a in (1) + 2", "T | extend x = a in (1, 2)", "T | sort by a asc, b desc nulls first, c nulls last",
+	"T | summarize a,", "T | where f(b[=])", "__subquery0 | join (__subquery0) on a", "T | as __subquery1 | count",
 }
